@@ -20,12 +20,27 @@ Tie obligations for the READER GLUE of src/read.rs (translator tier T6, helper t
                          `names_map.get(name)` returns
   openArchive_eq_alloc   `openArchive = Prod.fst <$> openArchiveAlloc` (the model function every property uses is
                          the first component of the tied one)
+  tie_find_content       fcRes <$> Gen.find_content data = (fun ds => ([("data.data_start", ds)], data.compressed_size))
+                           <$> findContent (dataOf data): seek to the local header, signature check, skip 22, the two
+                         lengths of the LOCAL header, the checked sum `header_start + 30 + n + m` (its overflow panic
+                         included), the seek to the data; the value stored into `data.data_start`; the `Take` limit
+  tie_make_crypto_reader Gen.make_crypto_reader ext m crc t udd reader pw info size
+                           = runChoice ext reader size (cryptoChoice (methodOf m) crc (toModel t) udd pw (aesInfoOf info))
+                         for EVERY behaviour `ext` of the external layer constructors: the decision (unsupported
+                         method / method 99 -> error before any I/O; AES info without password -> InvalidPassword;
+                         password + AES info -> AES layer with that mode, size, vendor version; password alone ->
+                         ZipCrypto with the validator chosen by `using_data_descriptor`: DOS time or CRC; else
+                         plaintext) is the model's `cryptoChoice`
+  byIndexRead_eq_choice  `byIndexRead = byIndexReadC`: the model's `by_index*` IS `cryptoChoice` followed by the layers
 
 Assumptions that enter the trusted base with this file (`Basic/RsGlue.lean`): `Vec::with_capacity(n)` /
 `HashMap::with_capacity(n)` request `n` elements and `push` / `insert` never change what was REQUESTED (growth by
 `push` is bounded by the number of pushed elements, which the loop theorems of C05 bound); `HashMap<String, usize>`
 is a finite map: `insert` of an existing key replaces its value, `get` returns the value stored last; `Arc::new`
-is the identity on values; `for _ in 0..n` runs `n` times.
+is the identity on values; `for _ in 0..n` runs `n` times.  `find_content`: an `AtomicU64::store` through a shared
+reference is reported as part of the function's value (`Rs.Stores`) and dropped when the function fails.
+`make_crypto_reader`: `ZipCryptoReader::new(..).validate(..)` / `AesReader::new(..).validate(..)` are uninterpreted
+`M`-computations with a Boolean verdict (`Rs.ReadExt`); a validated layer is the record of its constructor's arguments.
 -/
 set_option linter.unusedSimpArgs false
 set_option linter.unusedSectionVars false
@@ -436,5 +451,129 @@ theorem namesMapOf_get (files : List FileData) (o : Nat) (c : Bytes) (cap : Nat)
       · simp only [hn, ↓reduceIte, Bool.false_eq_true]
   have := key files.reverse
   rwa [List.reverse_reverse] at this
+
+/-! ### `find_content` -/
+
+/-- What `find_content` reports: the cells it stored into, and the limit of the `Take` it returns. -/
+def fcRes (r : Rs.Take × Rs.Stores) : Rs.Stores × UInt64 := (r.2, r.1.limit)
+
+/-- `find_content`: same I/O (seek to the local header, signature, skip 22, the two LOCAL lengths, seek to the
+data), same failure points - including the overflow panic of `header_start + 30 + n + m` -, `data_start` stored
+into the entry, and a `Take` limited to the entry's `compressed_size`. -/
+theorem tie_find_content (data : Gen.ZipFileData) :
+    fcRes <$> Gen.find_content data =
+      (fun ds => ([("data.data_start", UInt64.ofNat ds)], data.compressed_size)) <$>
+        Model.findContent (dataOf data) := by
+  unfold Gen.find_content Model.findContent
+  have h22 : (22 : Int64).toInt = 22 := by decide
+  have hA : Rs.Arith.add (4 : UInt64) (22 : UInt64) = some 26 := by decide
+  have hB : Rs.Arith.add (26 : UInt64) (2 : UInt64) = some 28 := by decide
+  have hC : Rs.Arith.add (28 : UInt64) (2 : UInt64) = some 30 := by decide
+  have hhs : (dataOf data).headerStart = data.header_start := rfl
+  have hsig : Gen.LOCAL_FILE_HEADER_SIGNATURE = LOCAL_SIG := rfl
+  msimp [h22, hhs, hsig]
+  refine bind_congr fun _ => bind_congr fun sig => ?_
+  by_cases hs : (sig != LOCAL_SIG) = true
+  · rw [if_pos hs, if_pos hs]
+  · rw [if_neg hs, if_neg hs]
+    refine bind_congr fun _ => bind_congr fun n => bind_congr fun m => ?_
+    rw [hA]; msimp; rw [hB]; msimp; rw [hC]; msimp
+    have e30 : (30 : UInt64).toNat = 30 := by decide
+    have hn := as_u16_u64_toNat n
+    have hm := as_u16_u64_toNat m
+    by_cases h1 : data.header_start.toNat + (30 : UInt64).toNat < 18446744073709551616
+    · obtain ⟨a1, v1⟩ := add_some _ _ h1
+      rw [a1]; msimp
+      by_cases h2 : (data.header_start + 30).toNat + (Rs.as' UInt64 n).toNat < 18446744073709551616
+      · obtain ⟨a2, v2⟩ := add_some _ _ h2
+        rw [a2]; msimp
+        by_cases h3 : (data.header_start + 30 + Rs.as' UInt64 n).toNat + (Rs.as' UInt64 m).toNat
+            < 18446744073709551616
+        · obtain ⟨a3, v3⟩ := add_some _ _ h3
+          rw [a3, if_neg (by omega)]
+          msimp
+          have hds : (data.header_start + 30 + Rs.as' UInt64 n + Rs.as' UInt64 m).toNat =
+              data.header_start.toNat + 30 + n.toNat + m.toNat := by omega
+          rw [hds]
+          refine bind_congr fun _ => ?_
+          simp only [fcRes, Rs.R.take, ← hds, UInt64.ofNat_toNat, List.nil_append]
+        · rw [add_none _ _ h3, if_pos (by omega)]
+          rfl
+      · rw [add_none _ _ h2, if_pos (by omega)]
+        rfl
+    · rw [add_none _ _ h1, if_pos (by omega)]
+      rfl
+
+/-! ### `make_crypto_reader`: the decision -/
+
+def vvOf : Gen.AesVendorVersion → AesVendorVersion
+  | .Ae1 => .ae1 | .Ae2 => .ae2
+def vvGen : AesVendorVersion → Gen.AesVendorVersion
+  | .ae1 => .Ae1 | .ae2 => .Ae2
+def aesModeGen : AesMode → Gen.AesMode
+  | .aes128 => .Aes128 | .aes192 => .Aes192 | .aes256 => .Aes256
+def validatorGen : Validator → Gen.ZipCryptoValidator
+  | .pkzipCrc32 c => .PkzipCrc32 c
+  | .infoZipMsdosTime t => .InfoZipMsdosTime t
+
+theorem vvGen_vvOf (v : Gen.AesVendorVersion) : vvGen (vvOf v) = v := by cases v <;> rfl
+theorem aesModeGen_aesModeOf (m : Gen.AesMode) : aesModeGen (Tie.Types.aesModeOf m) = m := by cases m <;> rfl
+
+/-- the external constructors at the generated types -/
+abbrev GExt := Rs.ReadExt Gen.ZipCryptoValidator Gen.AesMode
+
+/-- What the model's decision means as a computation: nothing is read for `unsupported` / `invalidPassword` /
+`plaintext`; the ZipCrypto and AES layers are built by the (uninterpreted) external constructors from exactly the
+password, validator, mode and size the decision names, and `None` from them is `Ok(Err(InvalidPassword))`. -/
+def runChoice (ext : GExt) (reader : Rs.Take) (csize : UInt64) :
+    CryptoChoice → M (Except Rs.InvalidPassword Gen.CryptoReader)
+  | .unsupported => M.throw .unsupportedArchive
+  | .invalidPassword => pure (.error ⟨⟩)
+  | .plaintext => pure (.ok (.Plaintext reader))
+  | .zipCrypto pw v => do
+    let ok ← ext.zcValidate reader pw (validatorGen v)
+    pure (if ok then .ok (.ZipCrypto ⟨reader, pw, validatorGen v⟩) else .error ⟨⟩)
+  | .aes pw mode vv => do
+    let ok ← ext.aesValidate reader (aesModeGen mode) csize pw
+    pure (if ok then .ok (.Aes ⟨reader, aesModeGen mode, csize, pw⟩ (vvGen vv)) else .error ⟨⟩)
+
+/-- the AES info of an entry as the model states it -/
+def aesInfoOf (info : Option (Gen.AesMode × Gen.AesVendorVersion)) : Option (AesMode × AesVendorVersion) :=
+  info.map fun p => (Tie.Types.aesModeOf p.1, vvOf p.2)
+
+theorem tie_make_crypto_reader (ext : GExt) (m : Gen.CompressionMethod) (crc : UInt32) (t : Gen.DateTime)
+    (udd : Bool) (reader : Rs.Take) (pw : Option Bytes) (info : Option (Gen.AesMode × Gen.AesVendorVersion))
+    (csize : UInt64) :
+    Gen.make_crypto_reader ext m crc t udd reader pw info csize =
+      runChoice ext reader csize
+        (cryptoChoice (Tie.Types.methodOf m) crc (Tie.DateTime.toModel t) udd pw (aesInfoOf info)) := by
+  unfold Gen.make_crypto_reader
+  cases m <;> cases pw <;> rcases info with _ | ⟨mode, vv⟩ <;>
+    simp only [cryptoChoice, Tie.Types.methodOf, runChoice, aesInfoOf, Option.map] <;>
+    msimp [Gen.unsupported_zip_error, Gen.CompressionMethod.AES, beq_iff_eq, reduceCtorEq, ↓reduceIte,
+      Rs.R.zc_validate, Rs.R.aes_validate, aesModeGen_aesModeOf, vvGen_vvOf, Tie.DateTime.tie_timepart] <;>
+    (try cases udd) <;>
+    (try msimp [validatorGen, ↓reduceIte, Bool.false_eq_true]) <;>
+    (try (refine bind_congr fun ok => ?_; cases ok <;> rfl))
+
+/-- `cryptoChoice` IS the model's decision: `byIndexRead` (the function C03 / C04 / C15 / C16 speak about) is the
+same function written through it. -/
+theorem byIndexRead_eq_choice (ext : Ext) (a : Archive) (i : Nat) (password : Option Bytes) :
+    byIndexRead ext a i password = byIndexReadC ext a i password := by
+  unfold byIndexRead byIndexReadC
+  cases hf : a.files[i]? with
+  | none => rfl
+  | some data =>
+    simp only []
+    by_cases hc : (password.isNone && data.encrypted) = true
+    · rw [if_pos hc, if_pos hc]
+    · rw [if_neg hc, if_neg hc]
+      refine bind_congr fun ds => ?_
+      generalize (if data.encrypted = true then password else none) = pw
+      rcases hm : data.method with _ | _ | _ | _ | _ | v <;> cases pw <;>
+        rcases hi : data.aesMode with _ | ⟨mode, vv⟩ <;>
+        simp only [cryptoChoice] <;> (try rfl)
+      all_goals (cases hu : data.usingDataDescriptor <;> simp only [Validator.checkByte, ↓reduceIte,
+        Bool.false_eq_true] <;> rfl)
 
 end ZipVerif.Tie.ReaderGlue
